@@ -6,6 +6,7 @@ import FcpptProofs.C03.Help
 import FcpptProofs.C03.Fuel
 import FcpptProofs.C03.Labels
 import FcpptProofs.C03.Names
+import FcpptProofs.C03.Leaves
 /-!
 # C03 — property theorems (see notes/C03.md for the clause-by-clause coverage)
 
@@ -216,10 +217,10 @@ theorem option_value_never_positional {st : List Arg} {c : Ctx} {x0 z : List Arg
   rw [this, skipped_append c _ _ hx] at h1
   simp [skipped, hn] at h1
 
-/-- `argument::parse` consumes exactly what `next_arg` finds -/
+/-- `argument::parse` consumes exactly what `next_arg` finds, and its record is that token's conversion -/
 theorem argument_takes_next_arg {f : Nat} {l : String} {ty : VTy} {nm : String} {help : Option String} {st : List Arg} {c : Ctx}
     {st' : List Arg} {r : Rec} {lg : Log} (h : parse (f + 1) (.arg l ty nm help) st c = .ok (st', r, lg)) :
-    ∃ x y z, splitNext st c = some (x, y, z) ∧ st' = x ++ z ∧ lg = [(y.1, l)] ∧ convert ty y.2 = some ((r.map Prod.snd).headD .unit) := by
+    ∃ x y z v, splitNext st c = some (x, y, z) ∧ st' = x ++ z ∧ lg = [(y.1, l)] ∧ convert ty y.2 = some v ∧ r = [(l, v)] := by
   simp only [parse, popArg] at h
   cases hs : splitNext st c with
   | none => simp [hs] at h
@@ -230,8 +231,55 @@ theorem argument_takes_next_arg {f : Nat} {l : String} {ty : VTy} {nm : String} 
     · rename_i v hv
       simp at h
       obtain ⟨rfl, rfl, rfl⟩ := h
-      exact ⟨x, y, z, rfl, rfl, rfl, by simpa using hv⟩
+      exact ⟨x, y, z, v, rfl, rfl, rfl, hv, rfl⟩
     · cases h
+
+/-- … and it fails with a `missing_error` (the state untouched) exactly when there is no positional argument, with an
+`other_error` exactly when the positional argument does not convert -/
+theorem argument_failures {f : Nat} {l : String} {ty : VTy} {nm : String} {help : Option String} {st : List Arg} {c : Ctx} :
+    ((∃ m t, parse (f + 1) (.arg l ty nm help) st c = .error (.missing m t)) ↔ splitNext st c = none) ∧
+    ((∃ t, parse (f + 1) (.arg l ty nm help) st c = .error (.other t)) ↔
+      ∃ x y z, splitNext st c = some (x, y, z) ∧ convert ty y.2 = none) ∧
+    (∀ m t, parse (f + 1) (.arg l ty nm help) st c = .error (.missing m t) → m = st) := by
+  simp only [parse, popArg]
+  cases hs : splitNext st c with
+  | none => simp
+  | some t =>
+    obtain ⟨x, y, z⟩ := t
+    simp only [Option.map_some]
+    cases hv : convert ty y.2 with
+    | some v =>
+      refine ⟨by simp, ?_, by simp⟩
+      constructor
+      · rintro ⟨t, ht⟩; cases ht
+      · rintro ⟨x', y', z', he, hn⟩
+        injection he with he; injection he with h1 he; injection he with h2 h3
+        subst h2; rw [hv] at hn; cases hn
+    | none =>
+      refine ⟨by simp, ?_, by simp⟩
+      constructor
+      · intro _; exact ⟨x, y, z, rfl, hv⟩
+      · intro _; exact ⟨_, rfl⟩
+
+/-! ## flags and options: the first occurrence of the name is taken (and, for an option, the element after it) -/
+
+/-- `use_flag`: nothing is taken iff no element equals the flag; otherwise the **first** element equal to it is removed
+and nothing else changes -/
+theorem use_flag_spec (name : String) (sh : Bool) (st : List Arg) :
+    (useFlag name sh st = none ↔ ∀ a ∈ st, a.2 ≠ flagName name sh) ∧
+    (∀ y st', useFlag name sh st = some (y, st') ↔
+      ∃ x z, st = x ++ y :: z ∧ st' = x ++ z ∧ y.2 = flagName name sh ∧ ∀ a ∈ x, a.2 ≠ flagName name sh) :=
+  ⟨useFlag_none_iff name sh st, fun y st' => useFlag_some_iff name sh st st' y⟩
+
+/-- `use_option`: not found iff no element equals the name; "missing argument" iff its first occurrence is the last
+element; otherwise the first occurrence **and the element right after it** (the value, whatever it looks like) are removed -/
+theorem use_option_spec (name : String) (sh : Bool) (st : List Arg) :
+    (useOption name sh st = .notFound ↔ ∀ a ∈ st, a.2 ≠ flagName name sh) ∧
+    (useOption name sh st = .missingArgument ↔
+      ∃ x y, st = x ++ [y] ∧ y.2 = flagName name sh ∧ ∀ a ∈ x, a.2 ≠ flagName name sh) ∧
+    (∀ n v st', useOption name sh st = .found n v st' ↔
+      ∃ x z, st = x ++ n :: v :: z ∧ st' = x ++ z ∧ n.2 = flagName name sh ∧ ∀ a ∈ x, a.2 ≠ flagName name sh) :=
+  ⟨useOption_notFound_iff name sh st, useOption_missing_iff name sh st, fun n v st' => useOption_found_iff name sh st st' n v⟩
 
 /-! ## names: the sets behind `flag_names()` / `option_names()` and the `parse_context` -/
 
